@@ -168,3 +168,49 @@ func State(a, n int, locked []int, appKind int) *channel.State {
 		IsFinal:    rt.NondetBool(),
 	}
 }
+
+// Source is a channel.Source built directly by a harness; RestoreStateMachine
+// turns it into a machine in an arbitrary state.
+type Source struct {
+	IdxV     channel.Index
+	ParamsV  *channel.Params
+	Staging  channel.Transaction
+	Current  channel.Transaction
+	PhaseV   channel.Phase
+}
+
+// ID implements channel.Source.
+func (s *Source) ID() channel.ID { return s.ParamsV.ID() }
+
+// Idx implements channel.Source.
+func (s *Source) Idx() channel.Index { return s.IdxV }
+
+// Params implements channel.Source.
+func (s *Source) Params() *channel.Params { return s.ParamsV }
+
+// StagingTX implements channel.Source.
+func (s *Source) StagingTX() channel.Transaction { return s.Staging }
+
+// CurrentTX implements channel.Source.
+func (s *Source) CurrentTX() channel.Transaction { return s.Current }
+
+// Phase implements channel.Source.
+func (s *Source) Phase() channel.Phase { return s.PhaseV }
+
+// Nats returns n arbitrary non-negative integers of any size.
+func Nats(n int) []channel.Bal {
+	out := make([]channel.Bal, n)
+	for i := range out {
+		out[i] = rt.NondetNat()
+	}
+	return out
+}
+
+// Ints returns n arbitrary integers of any size and sign.
+func Ints(n int) []channel.Bal {
+	out := make([]channel.Bal, n)
+	for i := range out {
+		out[i] = rt.NondetInt()
+	}
+	return out
+}
